@@ -202,4 +202,15 @@ func init() {
 			{Name: "mut", Pkg: "c13", Run: "^TestC13DecodeMutations$", QuickChecks: 150, QuickShards: 4, ThoroughChecks: 2500, ThoroughShards: 8, Inject: msgOverlay, CaseFile: true, CrashOracle: "no-crash"},
 		},
 	}
+
+	registry["C05"] = &Check{
+		Rule: "world scenarios (DESIGN §3.5): trees of 1-5 probe actors (depth <= 3) with drawn supervision strategies / decision lists, providers, failing OnLaunch incarnations, failing restart hooks, failures while handling OnKill / OnKilled; scripts of 1-8 operations (tell with nested handler programs: tell, panic, Failed, kill, spawn, become/unbecome, watch/unwatch; kill poison or not; spawn incl. duplicate names) executed inside a synctest bubble, sequentially settled or racing (1 in 4); the system is stopped at the end. Oracle: per-actor lifecycle state machine over the complete behaviour trace + OnLaunch count = successful spawns + completed restarts per actor + instance rule (provider => fresh instance, none => same) + behaviour reset. Non-trivial = at least one completed restart. Distinct = hash of the scenario.",
+		Assumptions: []string{
+			"virtual clock / quiescence by testing/synctest; in racing mode the interleaving is the Go scheduler's",
+			"a one-for-all Stop decision of the system (root) strategy is not generated: it also terminates the harness's observer actor",
+		},
+		Units: []Unit{
+			{Name: "life", Pkg: "c05", Run: "^TestC05Lifecycle$", QuickChecks: 6000, ThoroughChecks: 60000, ThoroughShards: 16, CaseFile: true},
+		},
+	}
 }
